@@ -47,14 +47,14 @@ def main():
                 'non-G2 clef or an octave-marked clef, and documents with >= 2 different clefs in force')
     if a.replay_case and 'seed' in a.replay_case['case']:
         run.add_tlc(tlc.run_tlc('MC_PitchAgn', workers=4, timeout=600))
-        docs.validate_sessions(run, [dp.sess_c10(a.replay_case['case']['seed'], plain_acc=False)])
+        docs.validate_sessions(run, [dp.sess_c10(a.replay_case['case']['seed'], plain_acc=False)], relevant=docs.relevant_for(run.pid))
         return run.finish()
     pitch_level(run, a)
     # document level: akern / aekern exports of documents with clef changes, chords and splits
     n = 150 if a.tier == 'quick' else 3000
     sess = docs.build_sessions(dp.sess_c10, [a.seed * 1000003 + i for i in range(n)], plain_acc=False)
     docs.selftest_session(next(s for s in sess if len(s['log']) > 10))
-    docs.validate_sessions(run, sess)
+    docs.validate_sessions(run, sess, relevant=docs.relevant_for(run.pid))
     run.evaluations += sum(1 for s in sess for e in s['log'] if e['ev'] == 'call')
     run.note('document_level_sessions', n)
     for s in sess:
